@@ -50,7 +50,7 @@ func newUniverse() *universe {
 		checkIDs:       []string{"c1", "c2", "serfHealth", "service:web"},
 		keys:           []string{"", "a", "a/", "a/b", "a/b/", "a/bc", "ab", "a\x00", "é", "A"},
 		prefixes:       []string{"", "a", "a/", "a/b", "b", "é"},
-		sessionIDs:     uuids(0xb0, 4),
+		sessionIDs:     append(uuids(0xb0, 6), uuidN(0xb9, 1)),
 		peerNames:      []string{"peer1", "peer2", "peer3"},
 		peerIDs:        uuids(0xc0, 3),
 		secretIDs:      uuids(0xc1, 5),
@@ -96,6 +96,22 @@ type gen struct {
 	haveVIPFlag bool
 	idx         uint64
 	fixedTime   time.Time
+	// session ids are chosen by the server (Session.Apply generates a fresh UUID per create): a create never
+	// reuses an id, everything else refers to ids created earlier
+	sessionsMade int
+}
+
+func (g *gen) freshSessionID() string {
+	g.sessionsMade++
+	return uuidN(0xb0, g.sessionsMade)
+}
+
+// someSessionID: an id created earlier in this history (mostly), or one that never existed
+func (g *gen) someSessionID() string {
+	if g.sessionsMade == 0 || g.r.Chance(10) {
+		return uuidN(0xb9, 1+g.r.Intn(2))
+	}
+	return uuidN(0xb0, 1+g.r.Intn(g.sessionsMade))
 }
 
 func (g *gen) pick(xs []string) string { return hx.Pick(g.r, xs) }
@@ -283,7 +299,7 @@ func (g *gen) dirEnt() structs.DirEntry {
 	r := g.r
 	d := structs.DirEntry{Key: g.pick(g.u.keys), Value: []byte(g.pick([]string{"", "v1", "v2", "\x00\xff"})), Flags: uint64(r.Intn(3))}
 	if r.Chance(35) {
-		d.Session = g.pick(g.u.sessionIDs)
+		d.Session = g.someSessionID()
 	}
 	return d
 }
@@ -315,7 +331,7 @@ func (g *gen) kvs() entry {
 		req.DirEnt.Key = g.pick(g.u.prefixes)
 	}
 	if (op == api.KVLock || op == api.KVUnlock) && req.DirEnt.Session == "" {
-		req.DirEnt.Session = g.pick(g.u.sessionIDs)
+		req.DirEnt.Session = g.someSessionID()
 	}
 	return entry{data: enc(structs.KVSRequestType, &req), kind: "kvs",
 		desc: fmt.Sprintf("kvs %s key=%q session=%q cas=%d", op, req.DirEnt.Key, req.DirEnt.Session, req.DirEnt.ModifyIndex)}
@@ -323,29 +339,39 @@ func (g *gen) kvs() entry {
 
 func (g *gen) session() structs.Session {
 	r := g.r
-	s := structs.Session{ID: g.pick(g.u.sessionIDs), Node: g.pick(g.u.nodeNames), Name: g.pick([]string{"", "lock"}),
-		Behavior: hx.Pick(r, []structs.SessionBehavior{structs.SessionKeysRelease, structs.SessionKeysDelete, ""}),
+	s := structs.Session{ID: g.freshSessionID(), Node: g.pick(g.u.nodeNames), Name: g.pick([]string{"", "lock"}),
+		Behavior:  hx.Pick(r, []structs.SessionBehavior{structs.SessionKeysRelease, structs.SessionKeysDelete, ""}),
 		LockDelay: time.Duration(r.Intn(3)) * time.Second}
+	if r.Chance(55) {
+		s.Node = "n1" // the node the kv profile registers first, with passing checks c1 and serfHealth
+	}
 	if r.Chance(20) {
 		s.TTL = "30s"
 	}
-	switch r.Intn(4) {
-	case 0:
-		s.NodeChecks = []string{g.pick(g.u.checkIDs)}
-	case 1:
+	switch k := r.Intn(100); {
+	case k < 35: // no checks
+	case k < 60:
+		s.NodeChecks = []string{"c1"}
+	case k < 72:
 		s.NodeChecks = []string{"serfHealth"}
-		s.ServiceChecks = []structs.ServiceCheck{{ID: g.pick(g.u.checkIDs)}}
-	case 2:
-		s.Checks = []types.CheckID{types.CheckID(g.pick(g.u.checkIDs))}
+		s.ServiceChecks = []structs.ServiceCheck{{ID: "c1"}}
+	case k < 82:
+		s.Checks = []types.CheckID{"c1"}
+	case k < 92:
+		s.NodeChecks = []string{g.pick(g.u.checkIDs)}
+	default:
+		s.NodeChecks = []string{"serfHealth", "c1"}
 	}
 	return s
 }
 
 func (g *gen) sessionOp() entry {
 	r := g.r
-	req := structs.SessionRequest{Datacenter: "dc1", Op: structs.SessionCreate, Session: g.session()}
+	var req structs.SessionRequest
 	if r.Chance(30) {
-		req.Op = structs.SessionDestroy
+		req = structs.SessionRequest{Datacenter: "dc1", Op: structs.SessionDestroy, Session: structs.Session{ID: g.someSessionID()}}
+	} else {
+		req = structs.SessionRequest{Datacenter: "dc1", Op: structs.SessionCreate, Session: g.session()}
 	}
 	return entry{data: enc(structs.SessionRequestType, &req), kind: "session",
 		desc: fmt.Sprintf("session %s id=%s node=%s checks=%v/%v/%v", req.Op, req.Session.ID, req.Session.Node, req.Session.NodeChecks, req.Session.ServiceChecks, req.Session.Checks)}
@@ -390,7 +416,7 @@ func (g *gen) txn() entry {
 			ops = append(ops, &structs.TxnOp{Check: &structs.TxnCheckOp{Verb: verb, Check: c}})
 			d += fmt.Sprintf(" chk:%s:%s", verb, c.CheckID)
 		default:
-			ops = append(ops, &structs.TxnOp{Session: &structs.TxnSessionOp{Verb: api.SessionDelete, Session: structs.Session{ID: g.pick(g.u.sessionIDs)}}})
+			ops = append(ops, &structs.TxnOp{Session: &structs.TxnSessionOp{Verb: api.SessionDelete, Session: structs.Session{ID: g.someSessionID()}}})
 			d += " session:delete"
 		}
 	}
@@ -408,7 +434,7 @@ func (g *gen) preparedQuery() entry {
 	r := g.r
 	q := &structs.PreparedQuery{ID: g.pick(g.u.queryIDs), Name: g.pick(g.u.queryNames), Service: structs.ServiceQuery{Service: g.pick(g.u.serviceNames)}}
 	if r.Chance(30) {
-		q.Session = g.pick(g.u.sessionIDs)
+		q.Session = g.someSessionID()
 	}
 	if q.Name == "geo-" || r.Chance(10) {
 		q.Template = structs.QueryTemplateOptions{Type: structs.QueryTemplateTypeNamePrefixMatch}
@@ -1008,6 +1034,12 @@ func genHistory(r *hx.RNG, u *universe, profile string, n int) []entry {
 		var e entry
 		if len(h) == 0 && profile != "kv" && profile != "acl" && r.Chance(70) {
 			e = g.vipFlag()
+		} else if profile == "kv" && len(h) < 2 && r.Chance(85) {
+			// give sessions a node with passing checks to attach to
+			id := []string{"c1", "serfHealth"}[len(h)]
+			req := structs.RegisterRequest{Datacenter: "dc1", Node: "n1", Address: "127.0.0.1",
+				Check: &structs.HealthCheck{Node: "n1", CheckID: types.CheckID(id), Name: "chk", Status: api.HealthPassing}}
+			e = entry{data: enc(structs.RegisterRequestType, &req), kind: "register", desc: "register node=n1 chk=" + id + "/passing"}
 		} else {
 			e = g.next(profile)
 		}
